@@ -210,7 +210,7 @@ Inductive cans := Yes | No | Boom.     (* what a user callback does on its next 
    if the predicate panics the element is leaked, never duplicated. *)
 Inductive dfres := DfItem (x : N) | DfDone | DfBoom | DfStarved.
 
-Fixpoint df_next (buf : list slot) (old_len idx del : nat) (ans : list cans) (fuel : nat)
+Fixpoint df_next (buf : list slot) (old_len idx del : nat) (ans : list cans) (fuel : nat) {struct fuel}
   : list slot * nat * nat * list cans * dfres :=
   match fuel with
   | O => (buf, idx, del, ans, DfDone)
@@ -286,7 +286,7 @@ Definition swap_slots (l : list slot) (i j : nat) : list slot :=
   let a := nth i l None in let b := nth j l None in
   overwrite (overwrite l i [b]) j [a].
 
-Fixpoint dedup_loop (buf : list slot) (len next_read next_write : nat) (ans : list cans) (fuel : nat)
+Fixpoint dedup_loop (buf : list slot) (len next_read next_write : nat) (ans : list cans) (fuel : nat) {struct fuel}
   : list slot * nat * bool :=     (* buffer, next_write, panicked *)
   match fuel with
   | O => (buf, next_write, false)
